@@ -62,6 +62,9 @@ def apply_op(root, op):
         elif op['to'] == 'file':
             with open(path, 'wb') as f:
                 f.write(b'was a directory\n')
+    elif k == 'symlink':
+        os.makedirs(os.path.dirname(path), exist_ok=True)
+        os.symlink(op['target'], path)
     elif k == 'touch':
         if os.path.exists(path):
             os.utime(path, (op['m'], op['m']))
